@@ -551,6 +551,16 @@ def split_parallel_assign(stmts: list[ast.stmt]) -> list[ast.stmt]:
                 for t, v in zip(s_.targets[0].elts, s_.value.elts):
                     out.append(ast.fix_missing_locations(ast.copy_location(ast.Assign(targets=[t], value=v), s_)))
                 continue
+        if isinstance(s_, ast.Assign) and len(s_.targets) == 1 and isinstance(s_.targets[0], (ast.Tuple, ast.List)) and isinstance(s_.value, (ast.Tuple, ast.List)) \
+                and len(s_.targets[0].elts) == len(s_.value.elts) and all(isinstance(v, (ast.Name, ast.Constant)) for v in s_.value.elts) \
+                and all(isinstance(t, (ast.Name, ast.Subscript, ast.Attribute)) and (isinstance(t, ast.Name) or is_reference(t.value)) for t in s_.targets[0].elts):
+            # stores into containers / attributes with plain names on the right: a store cannot change what a name denotes
+            bound = {t.id for t in s_.targets[0].elts if isinstance(t, ast.Name)}
+            read = {v.id for v in s_.value.elts if isinstance(v, ast.Name)} | {n.id for t in s_.targets[0].elts if not isinstance(t, ast.Name) for n in ast.walk(t) if isinstance(n, ast.Name)}
+            if not (bound & read):
+                for t, v in zip(s_.targets[0].elts, s_.value.elts):
+                    out.append(ast.fix_missing_locations(ast.copy_location(ast.Assign(targets=[t], value=v), s_)))
+                continue
         out.append(s_)
     return out
 
